@@ -8,6 +8,7 @@ import TFV.Generated.Src.TheFittest_get
 import TFV.Generated.Src.EA_from_population_g_to_fitness
 import TFV.Generated.Src.DE_from_population_g_to_fitness
 import TFV.Generated.Src.SHAGA_from_population_g_to_fitness
+import TFV.Generated.Src.GA_from_population_g_to_fitness
 
 namespace TFV.SrcTie
 open TFV.Generated.Src TFV
@@ -75,5 +76,17 @@ theorem C02_src_shaga_record_step (elitism : Bool) (g ph fit : List Int) (r0g r0
     have gg : ∀ (a b c' : Int), Imp.geti [a, b, c'] (0 : Int) = a ∧ Imp.geti [a, b, c'] (1 : Int) = b ∧ Imp.geti [a, b, c'] (2 : Int) = c' :=
       fun _ _ _ => ⟨rfl, rfl, rfl⟩
     simp [SHAGA_from_population_g_to_fitness, hrec, hg, e1, e2, e3, (gg rg rp rf).1, (gg rg rp rf).2.1, (gg rg rp rf).2.2]
+
+/-- the GA family: the base class's step first (`stepFn` = its effect on the three arrays, C02_src_evaluation_step), then the
+    scaled fitness and the ranks that selection and crossover read are computed from the fitness vector as it is AFTER that
+    step — elite included -/
+theorem C02_src_ga_evaluation_step (g ph fit sc rk : List Int) (scaleFn rankFn : List Int → Nat → List Int)
+    (stepFn : List Int → List Int → List Int → Nat → List (List Int)) (g' ph' fit' : List Int)
+    (hstep : stepFn g ph fit 0 = [g', ph', fit']) :
+    GA_from_population_g_to_fitness g ph fit sc rk scaleFn rankFn stepFn = some [g', ph', fit', scaleFn fit' 1, rankFn fit' 2] := by
+  have r0 : Imp.getrow [g', ph', fit'] (0 : Int) = g' := rfl
+  have r1 : Imp.getrow [g', ph', fit'] (1 : Int) = ph' := rfl
+  have r2 : Imp.getrow [g', ph', fit'] (2 : Int) = fit' := rfl
+  simp [GA_from_population_g_to_fitness, hstep, r0, r1, r2]
 
 end TFV.SrcTie
